@@ -341,6 +341,17 @@ def templates(rng, w=None):
         if w >= 3:
             a, b2, c3 = _split3(r, w)
             T += [["concat", c_w(r, a), c_w(r, b2), g.bv(c3, 1)], ["concat", g.bv(a, 1), c_w(r, b2), c_w(r, c3)], ["concat", ["concat", g.bv(a, 1), g.bv(b2, 1)], g.bv(c3, 1)]]
+            # a mask of low ones over a Concat of 2..4 parts (rewritten to a ZeroExt of the low parts)
+            parts = [g.bv(a, 1), g.bv(b2, 1), g.bv(c3, 1)]
+            cc3 = ["concat", *parts]
+            for low in (c3, b2 + c3, b2 + c3 - 1 if b2 + c3 > 1 else 1, w - 1):
+                mk = ["bvv", (1 << low) - 1, w]
+                T += [["and", cc3, mk], ["and", mk, cc3]]
+            T += [["and", ["concat", parts[0], ["concat", parts[1], parts[2]]], ["bvv", (1 << (b2 + c3)) - 1, w]], ["and", ["concat", c_w(r, a), parts[1], parts[2]], ["bvv", (1 << (b2 + c3)) - 1, w]]]
+            if w >= 4:
+                a4 = _split3(r, w - 1)
+                p4 = [g.bv(1, 1), g.bv(a4[0], 1), g.bv(a4[1], 1), g.bv(a4[2], 1)]
+                T += [["and", ["concat", *p4], ["bvv", (1 << (w - 1)) - 1, w]], ["and", ["concat", *p4], ["bvv", (1 << (a4[1] + a4[2])) - 1, w]]]
             # slices of one value around, before and after unrelated operands (the slice-merging rule keeps state
             # across operands): adjacent, adjacent with something in between, overlapping, out of order, three in a row
             hi, m = a + b2 + c3 + 2, b2 + c3 + 3
